@@ -20,7 +20,9 @@ tie_b = lambda ctx: tie_b_fe25(ctx)
 FINGERPRINTS = "C05"     # Tie B: pinned source text of the hand-transcribed limb code (tools/fingerprint.py)
 RULE = ("random (scalar, point) pairs; the low-order / non-canonical u-coordinates (0, 1, the two order-8 points, p-1, p, p+1) with either top bit; u in p-k..p+k and "
         "2^255-k..2^255-1; scalars covering all 32 clamp-bit patterns; limb-structured field elements (all-ones 51-bit and 25.5-bit limbs); key exchange: both sides computed "
-        "and required cross-equal; box in both cipher variants with all call forms; seeded key pairs; backends: AVX (sandy2x) / ref10 fe51 / fe25.5 / portable")
+        "and required cross-equal; constructed (scalar, point) pairs with a PRESCRIBED shared point at the boundaries of the final reduction / packing: every "
+        "small integer 1..2000 of prime order (curve and twist) with several scalars, p-k, 2^k+-d and p-2^k+-d around every limb / word boundary, "
+        "saturated 51-bit / 25.5-bit limb runs; the same pairs through box / kx; box in both cipher variants with all call forms; seeded key pairs; backends: AVX (sandy2x) / ref10 fe51 / fe25.5 / portable")
 ASSUMPTIONS = ["ladder = scalar multiplication on the curve and Diffie-Hellman commutativity need a formalised group law; they are translation-validated against the RFC 7748 ladder over naturals and by computing both sides of every exchange"]
 P = edpy.p
 
@@ -97,6 +99,115 @@ def points(rng, full):
     return pts
 
 
+LIMB51 = [51 * i for i in range(5)] + [255]
+LIMB25 = [0, 26, 51, 77, 102, 128, 153, 179, 204, 230, 255]
+
+
+def _pmap(fn, items):
+    """fn over items in worker processes (pure big-integer curve arithmetic, ~1.3 ms per item); serial if no pool can be had"""
+    items = list(items)
+    try:
+        import multiprocessing
+        from concurrent.futures import ProcessPoolExecutor
+        with ProcessPoolExecutor(max_workers=12, mp_context=multiprocessing.get_context("fork")) as ex:
+            return list(ex.map(fn, items, chunksize=max(1, len(items) // 96)))
+    except (OSError, ImportError, RuntimeError):
+        return [fn(x) for x in items]
+
+
+def _preimage(t):
+    return edpy.preimage_for_output(*t)
+
+
+def boundary_targets(rng, full):
+    """shared points (integers < p, prime order on the curve or the twist) at the boundaries of the final reduction / packing, with the number of
+    scalars each one is to be reached with: [(u, order, count, family)]. The output of X25519 is quantified over by C05 just like the inputs; random
+    pairs only ever produce outputs with no structure, so every structured output has to be constructed (edpy.preimage_for_output)."""
+    C, seen = [], set()          # candidates (u, count, family, group): of the candidates of one group only the first usable one is taken
+
+    def put(u, count, fam, group=None):
+        if 0 < u < P and u not in seen:
+            seen.add(u)
+            C.append((u, count, fam, group))
+
+    # (a) small integers, dense: the packed result is u but the limbs before packing hold u + p or u + 2p (low limb slightly above / below 2^51, the others saturated)
+    hi = 2000 if not full else 10000
+    for u in range(1, hi + 1):
+        put(u, (3 if u < 512 else 2) * (2 if full else 1), "small")
+    # (b) just below p: p - k
+    for k in range(1, (300 if not full else 3000) + 1):
+        put(P - k, 2 if k < 64 or full else 1, "p-k")
+    # (c) 2^k + d and p - 2^k + d: one limb / word just overflowing or just short of it; dense around the 51-bit / 25.5-bit limb and 32 / 64-bit word boundaries
+    edges = set(LIMB51[1:-1]) | set(LIMB25[1:-1]) | set(range(32, 255, 32)) | {250, 251, 252, 253, 254}
+    for k in range(1, 255):
+        if k in LIMB51:
+            ds = range(-24, 25)
+        elif k in edges:
+            ds = range(-4, 5)
+        else:
+            ds = (-1, 0, 1) if not full else range(-3, 4)
+        for d_ in ds:
+            put((1 << k) + d_, 2 if k in LIMB51 else 1, "2^k")
+            if k in edges or full:
+                put(P - (1 << k) + d_, 1, "p-2^k")
+    # (d) saturated limbs: every set of 51-bit limbs and every run of 25.5-bit limbs all-ones, the other limbs zero (closest usable value on either side;
+    # about 3/16 of all values are usable) and random
+    g = 0
+    for bounds, sets in ((LIMB51, [[i for i in range(5) if m >> i & 1] for m in range(1, 31)]),
+                         (LIMB25, [list(range(i, j)) for i in range(10) for j in range(i + 1, 11) if j - i < 10])):
+        n = len(bounds) - 1
+        for S in sets:
+            sat = sum(((1 << (bounds[i + 1] - bounds[i])) - 1) << bounds[i] for i in S)
+            for sgn in (1, -1):
+                g += 1
+                for t in range(8 if not full else 24):
+                    put(sat + sgn * t, 1, "saturated", g)
+            g += 1
+            for _ in range(8 if not full else 24):
+                v = sat
+                for i in range(n):
+                    if i not in S:
+                        v |= rng.getrandbits(bounds[i + 1] - bounds[i]) << bounds[i]
+                put(v, 1, "saturated", g)
+    T, done = [], set()
+    for (u, count, fam, group), o in zip(C, _pmap(edpy.prime_subgroup_order, [c[0] for c in C])):
+        if o is not None and group not in done:
+            T.append((u, o, count, fam))
+            if group is not None:
+                done.add(group)
+    return T
+
+
+def boundary_pairs(ctx, rng, full):
+    L, fams, ncurve, small = [], {}, 0, []
+    want = [(rb(rng, 32), u, o, fam) for (u, o, count, fam) in boundary_targets(rng, full) for _ in range(count)]
+    for (nb_, u, o, fam), P_ in zip(want, _pmap(_preimage, [w[:3] for w in want])):
+        if P_ is None:
+            continue
+        if rng.randrange(8) == 0:
+            P_ = P_[:31] + bytes([P_[31] | 0x80])          # the top bit of the point is ignored (RFC 7748)
+        L.append((nb_, P_, u))
+        fams[fam] = fams.get(fam, 0) + 1
+        ncurve += o == edpy.L
+        if fam == "small":
+            small.append((nb_, P_, u))
+    # the construction itself is checked on a sample (a generator that silently stopped producing these outputs would leave the dimension uncovered)
+    for (nb_, P_, u) in rng.sample(L, min(24, len(L))):
+        if int.from_bytes(edpy.x25519(nb_, P_), "little") != u:
+            raise vcore.BrokenCheck("C05 generator: constructed pair does not give the prescribed shared point %d" % u)
+    if fams.get("small", 0) < 400 or fams.get("p-k", 0) < 40 or fams.get("2^k", 0) < 80 or fams.get("saturated", 0) < 60:
+        raise vcore.BrokenCheck("C05 generator: too few boundary-output pairs %s" % fams)
+    ctx.stats["boundary_output_pairs"] = dict(fams, total=len(L), curve=ncurve, twist=len(L) - ncurve)
+    out = ["x25519 %s %s" % (hexs(a), hexs(b)) for (a, b, _) in L]
+    # the same shared points through the APIs built on the ladder (box beforenm in both variants, kx session keys)
+    for (nb_, P_, u) in rng.sample(small, 12 if not full else 100):
+        out.append("box.easy xsalsa %s %s %s %s" % (hexs(rb(rng, 5)), hexs(rb(rng, 24)), hexs(P_), hexs(nb_)))
+        out.append("box.easy xchacha %s %s %s %s" % (hexs(rb(rng, 5)), hexs(rb(rng, 24)), hexs(P_), hexs(nb_)))
+        out.append("kx.client %s %s %s" % (hexs(rb(rng, 32)), hexs(nb_), hexs(P_)))
+        out.append("kx.server %s %s %s" % (hexs(rb(rng, 32)), hexs(nb_), hexs(P_)))
+    return out
+
+
 def gen(ctx, tier, rng):
     L = []
     full = tier == "thorough"
@@ -131,6 +242,8 @@ def gen(ctx, tier, rng):
     ctx.stats["sparse_output_pairs"] = len(targets)
     for (nb_, P_) in targets:
         L.append("x25519 %s %s" % (hexs(nb_), hexs(P_)))
+    # constructed pairs whose OUTPUT sits at a boundary of the final reduction / packing (small integers, p-k, 2^k+-d, saturated limbs)
+    L += boundary_pairs(ctx, rng, full)
     # all 2^5 clamp-bit patterns of the scalar (bits 0,1,2 of byte 0 and bits 6,7 of byte 31)
     base = bytearray(rb(rng, 32))
     pt = rb(rng, 32)
